@@ -8,6 +8,7 @@ import (
 	"fmt"
 	"io"
 	"math/rand"
+	"net/http"
 	"os"
 	"path/filepath"
 	"regexp"
@@ -73,6 +74,65 @@ type Session struct {
 	Perturb      bool
 	closeWG      sync.WaitGroup
 	t0           time.Time
+	compileT0    time.Time
+	failed       bool
+	Hist         map[string]int // generator histogram contributions of this session
+}
+
+// Process-wide waiting budget: a broken tree must not multiply the waits. Failures counts the sessions that missed an
+// idle point, a client catch-up or the return of run(); the per-wait patience is derived from how slow this machine
+// currently is (the longest compile seen so far), not from a fixed large constant.
+var (
+	budgetMu       sync.Mutex
+	Failures       int
+	longestCompile time.Duration
+)
+
+func noteCompile(d time.Duration) {
+	budgetMu.Lock()
+	if d > longestCompile {
+		longestCompile = d
+	}
+	budgetMu.Unlock()
+}
+
+func (s *Session) noteFailure() {
+	if s.failed {
+		return // one session counts once
+	}
+	s.failed = true
+	budgetMu.Lock()
+	Failures++
+	budgetMu.Unlock()
+}
+
+// FailedSessions reports how many sessions ran into a waiting limit so far.
+func FailedSessions() int {
+	budgetMu.Lock()
+	defer budgetMu.Unlock()
+	return Failures
+}
+
+func clampDur(d, lo, hi time.Duration) time.Duration {
+	if d < lo {
+		return lo
+	}
+	if d > hi {
+		return hi
+	}
+	return d
+}
+
+// patience is how long the trace may stay silent before a wait is given up: a running compile emits no event, so
+// it gets several compile times; otherwise twice a compile time covers goroutine scheduling lag under load.
+func patience(compiling bool) time.Duration {
+	budgetMu.Lock()
+	lc := longestCompile
+	budgetMu.Unlock()
+	if compiling {
+		return clampDur(5*lc, 10*time.Second, 90*time.Second)
+	}
+	return clampDur(2*lc, 2*time.Second, 30*time.Second)
 }
 
 var verRe = regexp.MustCompile(`VER(\d{6})`)
@@ -103,7 +163,7 @@ func New(work string, seed int64, perturb bool) (*Session, error) {
 	}
 	s := &Session{Dir: dir, In: filepath.Join(dir, "in.d2"), Out: filepath.Join(dir, "out.svg"),
 		ptr: map[string]int{}, clients: map[int]*Client{}, runDone: make(chan error, 1),
-		rng: rand.New(rand.NewSource(seed)), Perturb: perturb, lastEv: time.Now(), t0: time.Now()}
+		rng: rand.New(rand.NewSource(seed)), Perturb: perturb, lastEv: time.Now(), t0: time.Now(), Hist: map[string]int{}}
 	if err := os.WriteFile(s.In, content(0), 0o644); err != nil {
 		return nil, err
 	}
@@ -142,7 +202,12 @@ func (s *Session) sink(ev d2cli.VerifEvent) {
 		}
 	}
 	switch ev.Kind {
+	case "compile_start":
+		s.compileT0 = time.Now()
 	case "compile_end":
+		if !s.compileT0.IsZero() {
+			noteCompile(time.Since(s.compileT0))
+		}
 		e.V = verOf(ev.SVG)
 		e.OK = ev.Err == ""
 	case "setres":
@@ -195,6 +260,83 @@ func (s *Session) Edit() {
 	f.Close()
 	s.trace = append(s.trace, Ev{K: "change", C: -1, V: s.ver, OK: true, T: time.Since(s.t0).Microseconds()})
 	s.lastEv = time.Now()
+}
+
+// EditDuringCompile produces the schedule "a change arrives while a compile is running, after that compile has read
+// the input": one edit to start a compile, then — once the trace shows that compile started — a second edit after a
+// short delay (the input is read right at the start of a compile; a compile takes two orders of magnitude longer).
+func (s *Session) EditDuringCompile(delay time.Duration) {
+	s.Edit()
+	first := s.ver
+	limit := time.Now().Add(patience(true))
+	for time.Now().Before(limit) {
+		// a compile that started after the first edit and has not ended yet?
+		s.mu.Lock()
+		seenChange, running := false, false
+		for _, e := range s.trace {
+			switch {
+			case e.K == "change" && e.V == first:
+				seenChange = true
+			case e.K == "compile_start" && seenChange:
+				running = true
+			case e.K == "compile_end" && running:
+				running = false
+				seenChange = false // that compile is over: wait for nothing more, edit anyway
+			}
+		}
+		over := !seenChange
+		s.mu.Unlock()
+		if running || over {
+			break
+		}
+		time.Sleep(time.Millisecond)
+	}
+	time.Sleep(delay)
+	s.Edit()
+	second := s.ver
+	// did it land inside a compile that had already read an older version?
+	s.mu.Lock()
+	idx := -1
+	for i, e := range s.trace {
+		if e.K == "change" && e.V == second {
+			idx = i
+		}
+	}
+	open := false
+	for i := 0; i < idx; i++ {
+		switch s.trace[i].K {
+		case "compile_start":
+			open = true
+		case "compile_end":
+			open = false
+		}
+	}
+	if open {
+		s.Hist["edit-in-compile:landed"]++
+	} else {
+		s.Hist["edit-in-compile:missed"]++
+	}
+	s.mu.Unlock()
+}
+
+// Probe hammers GET /watch (no websocket upgrade) over ONE kept-alive connection: every request goes through
+// handleWatch's admission (`closing` test, wsclientsWG.Add) and then fails in websocket.Accept (Done). Requests keep
+// arriving on the established connection after the listener has been closed.
+func (s *Session) Probe(idBase, n int, gap time.Duration) {
+	tr := &http.Transport{MaxConnsPerHost: 1, MaxIdleConnsPerHost: 1, DisableCompression: true}
+	defer tr.CloseIdleConnections()
+	cl := &http.Client{Transport: tr, Timeout: 10 * time.Second}
+	for i := 0; i < n; i++ {
+		resp, err := cl.Get(fmt.Sprintf("http://%s/watch?c=%d", s.W.Addr(), idBase+i))
+		if err != nil {
+			return
+		}
+		io.Copy(io.Discard, resp.Body)
+		resp.Body.Close()
+		if gap > 0 {
+			time.Sleep(gap)
+		}
+	}
 }
 
 // Connect dials /watch?c=id and keeps reading results until the connection ends.
@@ -356,22 +498,42 @@ func (s *Session) clientsBusyLocked() bool {
 func (s *Session) Quiesce(idle, timeout time.Duration) bool {
 	deadline := time.Now().Add(timeout)
 	ok := false
-	for time.Now().Before(deadline) {
+	why := ""
+	for {
 		s.mu.Lock()
 		lc, lr, sent, starts, dones, _, reqOpen := s.counts()
-		quiet := time.Since(s.lastEv) >= idle
+		ends := 0
+		for _, e := range s.trace {
+			if e.K == "compile_end" {
+				ends++
+			}
+		}
+		silent := time.Since(s.lastEv)
 		busy := s.clientsBusyLocked()
 		s.mu.Unlock()
-		if quiet && lr > lc && sent == starts && starts == dones && reqOpen == 0 && !busy {
+		if silent >= idle && lr > lc && sent == starts && starts == dones && reqOpen == 0 && !busy {
 			ok = true
+			break
+		}
+		// give up when nothing has happened for longer than this machine's current slowness explains
+		if p := patience(starts > ends); silent > p {
+			why = fmt.Sprintf("no event for %v (patience %v, compile running: %v)", silent.Round(time.Millisecond), p, starts > ends)
+			break
+		}
+		if time.Now().After(deadline) {
+			why = "absolute limit"
 			break
 		}
 		time.Sleep(10 * time.Millisecond)
 	}
+	if !ok {
+		s.noteFailure()
+	}
 	// the server's write returning does not mean the client goroutine has read the message yet: give every live
 	// client the time to catch up with what the server wrote to it (a real loss still shows: the wait times out)
-	catchUp := time.Now().Add(30 * time.Second)
-	for time.Now().Before(catchUp) {
+	lastProgress := time.Now()
+	lastTotal := -1
+	for {
 		s.mu.Lock()
 		written := map[int]int{}
 		for _, e := range s.trace {
@@ -381,9 +543,11 @@ func (s *Session) Quiesce(idle, timeout time.Duration) bool {
 		}
 		s.mu.Unlock()
 		behind := false
+		total := 0
 		s.cmu.Lock()
 		for id, c := range s.clients {
 			c.mu.Lock()
+			total += len(c.Recv)
 			if c.conn != nil && !c.Dropped && len(c.Recv) < written[id] {
 				behind = true
 			}
@@ -391,6 +555,13 @@ func (s *Session) Quiesce(idle, timeout time.Duration) bool {
 		}
 		s.cmu.Unlock()
 		if !behind {
+			break
+		}
+		if total != lastTotal {
+			lastTotal, lastProgress = total, time.Now()
+		}
+		if time.Since(lastProgress) > patience(false) {
+			s.noteFailure()
 			break
 		}
 		time.Sleep(5 * time.Millisecond)
@@ -412,9 +583,17 @@ func (s *Session) Quiesce(idle, timeout time.Duration) bool {
 	}
 	s.cmu.Unlock()
 	s.mu.Lock()
-	s.trace = append(s.trace, Ev{K: "quiesce", C: -1, V: s.ver, OK: ok, T: time.Since(s.t0).Microseconds(), Extra: map[string]any{"live": live, "last": last}})
+	s.trace = append(s.trace, Ev{K: "quiesce", C: -1, V: s.ver, OK: ok, T: time.Since(s.t0).Microseconds(), Extra: map[string]any{"live": live, "last": last, "why": why}})
 	s.mu.Unlock()
 	return ok
+}
+
+// xhttp.Serve gives active connections 30 s; the first session that hangs gets the long limit, later ones do not
+func shutdownWait() time.Duration {
+	if FailedSessions() > 0 {
+		return 40 * time.Second
+	}
+	return 120 * time.Second
 }
 
 // Shutdown cancels the parent context (the signal path of `d2 --watch`) and waits for run() to return.
@@ -426,8 +605,9 @@ func (s *Session) Shutdown() {
 		if err != nil {
 			s.RunErr = err.Error()
 		}
-	case <-time.After(120 * time.Second):
-		s.RunErr = "run() did not return within 120 s"
+	case <-time.After(shutdownWait()):
+		s.RunErr = "run() did not return within its time limit"
+		s.noteFailure()
 	}
 	s.closeWG.Wait()
 }
@@ -470,7 +650,7 @@ func (s *Session) Finish() map[string]any {
 	}
 	s.mu.Unlock()
 	os.RemoveAll(s.Dir)
-	return map[string]any{"trace": tr, "recv": recv, "dialErr": dial, "runErr": s.RunErr}
+	return map[string]any{"trace": tr, "recv": recv, "dialErr": dial, "runErr": s.RunErr, "hist": s.Hist}
 }
 
 // Op is one scripted action.
@@ -504,8 +684,16 @@ func RunScript(work string, seed int64, perturb bool, script []Op) (map[string]a
 			time.Sleep(time.Duration(op.Ms) * time.Millisecond)
 		case "usleep":
 			time.Sleep(time.Duration(op.Ms) * time.Microsecond)
+		case "edit_in_compile":
+			s.EditDuringCompile(time.Duration(op.Ms) * time.Millisecond)
+		case "probe":
+			wg.Add(1)
+			go func(op Op) {
+				defer wg.Done()
+				s.Probe(op.ID, op.N, time.Duration(op.Ms)*time.Microsecond)
+			}(op)
 		case "quiesce":
-			s.Quiesce(200*time.Millisecond, 90*time.Second)
+			s.Quiesce(200*time.Millisecond, 120*time.Second)
 		case "close":
 			s.CloseAsync()
 		case "close_wait":
